@@ -1877,4 +1877,152 @@ theorem busy_can_step (cfg : Cfg) (s : State) (hw : 1 ≤ cfg.workers) (h : 0 < 
         simp only [step, stepRet, deqUnpin, hb, Bool.false_eq_true, if_false, hu, startCall]
         split_ifs <;> simp [work, hp, hu, hc, callWeight] <;> omega
 
+/-! ### cancellation aborts the in-flight request -/
+
+/-- a cancelled operation's call is inert: the daemon does not apply it, it cannot return nil or a daemon error -/
+theorem dead_call_inert (s : State) (i : Nat) (hc : (s.ops i).cancelled = true) :
+    effect s i = s ∧ retOk s i = s ∧ retErr s i = s := by
+  refine ⟨?_, ?_, ?_⟩
+  · unfold effect; cases findCall s i <;> simp [hc]
+  · unfold retOk; cases findCall s i <;> simp [hc]
+  · unfold retErr; cases findCall s i <;> simp [hc]
+
+theorem replaceSt_keeps_cancelled (s : State) (c : Nat) (o : Op) (pq uq : List Nat) (cl : List Call)
+    (sh : Nat → Option PinSpec) (fl : Nat → Bool) (i : Nat) (hi : i < s.nextId) (hc : (s.ops i).cancelled = true) :
+    ((replaceSt s c o pq uq cl sh fl).ops i).cancelled = true ∧ i < (replaceSt s c o pq uq cl sh fl).nextId := by
+  unfold replaceSt
+  simp only [upd_apply, cancelCurOps_apply]
+  have : i ≠ s.nextId := by omega
+  simp only [this, if_false]
+  refine ⟨?_, by omega⟩
+  split_ifs <;> simp [hc]
+
+theorem enqueue_keeps_cancelled (cfg : Cfg) (s : State) (p : PinSpec) (typ : OpType) (ht : typ ≠ .remote) (i : Nat)
+    (hi : i < s.nextId) (hc : (s.ops i).cancelled = true) :
+    (((enqueue cfg s p typ).1).ops i).cancelled = true ∧ i < ((enqueue cfg s p typ).1).nextId := by
+  rcases enqueue_cases cfg s p typ ht with ⟨j, _, _, _, _, h5⟩ | h5 | h5
+  · rw [h5]; exact ⟨hc, hi⟩
+  · rw [h5]; exact replaceSt_keeps_cancelled s _ _ _ _ _ _ _ i hi hc
+  · rw [h5]; exact replaceSt_keeps_cancelled s _ _ _ _ _ _ _ i hi hc
+
+/-- cancellation is final: no step of the tracker revives a cancelled operation -/
+theorem cancelled_stays (cfg : Cfg) (s : State) (e : Ev) (i : Nat) (hi : i < s.nextId)
+    (hc : (s.ops i).cancelled = true) :
+    ((step cfg s e).ops i).cancelled = true ∧ i < (step cfg s e).nextId := by
+  unfold step stepRet
+  cases e with
+  | track p =>
+    simp only [track]
+    cases hk : p.kind with
+    | here =>
+      simp only [↓reduceIte]
+      exact enqueue_keeps_cancelled cfg { s with shared := _, failed := _ } p .pin (by intro e; cases e) i hi hc
+    | sharded => simp only [reduceCtorEq, ↓reduceIte]; exact ⟨hc, hi⟩
+    | remote =>
+      simp only [reduceCtorEq, ↓reduceIte]
+      rcases trackNew_cases { s with shared := upd s.shared p.cid (some p), failed := s.failed } p .remote .inProgress
+        with ⟨j, _, _, _, _, h5⟩ | h5
+      · rw [h5]; exact ⟨hc, hi⟩
+      · rw [h5]
+        exact replaceSt_keeps_cancelled { s with shared := upd s.shared p.cid (some p), failed := s.failed } p.cid
+          (newOpRec p .remote .inProgress false) [] [] [] (upd s.shared p.cid (some p)) s.failed i hi hc
+  | untrack c =>
+    simp only [untrack]
+    exact enqueue_keeps_cancelled cfg { s with shared := _, failed := _ } (pinCid c) .unpin (by intro e; cases e) i hi hc
+  | recover c =>
+    simp only [recover, recoverWith]
+    cases statusOf s c <;> simp only [] <;> first
+      | exact ⟨hc, hi⟩
+      | exact enqueue_keeps_cancelled cfg s _ _ (by intro e; cases e) i hi hc
+  | deqPin =>
+    simp only [deqPin]
+    split_ifs
+    · cases hq : s.pinQ with
+      | nil => exact ⟨hc, hi⟩
+      | cons j rest =>
+        simp only [startCall]
+        split_ifs with hj
+        · exact ⟨hc, hi⟩
+        · simp only [upd_apply]; refine ⟨?_, hi⟩; split_ifs with e
+          · subst e; exact absurd hc hj
+          · exact hc
+    · exact ⟨hc, hi⟩
+  | deqUnpin =>
+    simp only [deqUnpin]
+    split_ifs
+    · exact ⟨hc, hi⟩
+    · cases hq : s.unpinQ with
+      | nil => exact ⟨hc, hi⟩
+      | cons j rest =>
+        simp only [startCall]
+        split_ifs with hj
+        · exact ⟨hc, hi⟩
+        · simp only [upd_apply]; refine ⟨?_, hi⟩; split_ifs with e
+          · subst e; exact absurd hc hj
+          · exact hc
+  | effect j =>
+    simp only [effect]
+    cases findCall s j <;> simp only [] <;> [exact ⟨hc, hi⟩; (split_ifs <;> exact ⟨hc, hi⟩)]
+  | retOk j =>
+    simp only [retOk]
+    cases findCall s j with
+    | none => exact ⟨hc, hi⟩
+    | some k =>
+      simp only []
+      split_ifs
+      all_goals first
+        | exact ⟨hc, hi⟩
+        | (refine ⟨?_, hi⟩; simp only [upd_apply]; split_ifs <;> simp [hc])
+  | retErr j =>
+    simp only [retErr]
+    cases findCall s j with
+    | none => exact ⟨hc, hi⟩
+    | some k =>
+      simp only []
+      split_ifs
+      all_goals first
+        | exact ⟨hc, hi⟩
+        | (refine ⟨?_, hi⟩; simp only [upd_apply]; split_ifs <;> simp [hc])
+  | reap j =>
+    simp only [reap]
+    cases findCall s j <;> simp only [] <;> [exact ⟨hc, hi⟩; (split_ifs <;> exact ⟨hc, hi⟩)]
+  | lose c => exact ⟨hc, hi⟩
+
+theorem cancelled_stays_run (cfg : Cfg) : ∀ (es : List Ev) (s : State) (i : Nat), i < s.nextId →
+    (s.ops i).cancelled = true → ((run cfg s es).ops i).cancelled = true := by
+  intro es
+  induction es with
+  | nil => intro s i _ hc; exact hc
+  | cons e es ih =>
+    intro s i hi hc
+    obtain ⟨h1, h2⟩ := cancelled_stays cfg s e i hi hc
+    exact ih (step cfg s e) i h2 h1
+
+/-- an instruction of another type for the cid cancels the table's operation (context cancelled) -/
+theorem enqueue_cancels_other (cfg : Cfg) (s : State) (p : PinSpec) (typ : OpType) (ht : typ ≠ .remote) (i : Nat)
+    (hcur : s.cur p.cid = some i) (hlt : i < s.nextId) (hty : (s.ops i).typ ≠ typ) :
+    (((enqueue cfg s p typ).1).ops i).cancelled = true ∧ i < ((enqueue cfg s p typ).1).nextId := by
+  have key : ∀ o pq uq, ((replaceSt s p.cid o pq uq [] s.shared s.failed).ops i).cancelled = true ∧
+      i < (replaceSt s p.cid o pq uq [] s.shared s.failed).nextId := by
+    intro o pq uq
+    unfold replaceSt
+    simp only [upd_apply, cancelCurOps_apply, hcur]
+    have : i ≠ s.nextId := by omega
+    simp [this]; omega
+  rcases enqueue_cases cfg s p typ ht with ⟨j, h1, h2, _, _, _⟩ | h5 | h5
+  · rw [hcur] at h1; cases h1; exact absurd h2 hty
+  · rw [h5]; exact key _ _ _
+  · rw [h5]; exact key _ _ _
+
+theorem trackRemote_cancels_other (s : State) (p : PinSpec) (i : Nat) (hcur : s.cur p.cid = some i) (hlt : i < s.nextId)
+    (hty : (s.ops i).typ ≠ .remote) :
+    (((trackNew s p .remote .inProgress).1).ops i).cancelled = true ∧ i < ((trackNew s p .remote .inProgress).1).nextId := by
+  rcases trackNew_cases s p .remote .inProgress with ⟨j, h1, h2, _, _, _⟩ | h5
+  · rw [hcur] at h1; cases h1; exact absurd h2 hty
+  · rw [h5]
+    unfold replaceSt
+    simp only [upd_apply, cancelCurOps_apply, hcur]
+    have : i ≠ s.nextId := by omega
+    simp [this]; omega
+
 end CV.C05
